@@ -1050,7 +1050,9 @@ class FiniteStateMachine:
             # trigger an automatic (so involving the Master only) behaviour for a running failure
             # process crash triggered only if running failure strategy related to application
             # Supvisors does not replace Supervisor in the present matter (use autorestart if necessary)
-            if self.state_modes.is_master() and process.crashed():
+            # NOTE: no process failure handling in the ending states, as everything is going to be stopped anyway
+            ending = self.state in [SupvisorsStates.RESTARTING, SupvisorsStates.SHUTTING_DOWN, SupvisorsStates.FINAL]
+            if self.state_modes.is_master() and process.crashed() and not ending:
                 strategy = process.rules.running_failure_strategy
                 if strategy == RunningFailureStrategies.RESTART:
                     self.on_restart()
